@@ -50,7 +50,7 @@ def gen_cases(tier, seed):
     for iname in sorted(IDPS):
         for j in KEYS:
             sc = signing_capable(iname)
-            embeds = ["none", "actual", "third"] + (["issuers"] if sc else [])
+            embeds = ["none", "actual", "third", "keyvalue"] + (["issuers"] if sc else [])
             for emb, level, opt in itertools.product(embeds, ("response", "assertion"), (1, 0, "default")):
                 if tier == "quick" and emb == "third" and j not in (0, 9):
                     continue
@@ -159,8 +159,10 @@ def run_case(case, ctx):
         signer_issuer = case["assertion_issuer"]
     j = case["key"]
     sc = signing_capable(signer_issuer)
-    emb = {"none": None, "actual": j, "third": 9, "issuers": sc[0] if sc else None}[case["embed"]]
+    emb = {"none": None, "actual": j, "third": 9, "issuers": sc[0] if sc else None, "keyvalue": None}[case["embed"]]
     cert_body = fed.cert_body(emb) if emb is not None else None
+    if case["embed"] == "keyvalue":
+        cert_body = "KEYVALUE"        # ds:KeyValue/RSAKeyValue of the key that signs - key material in the message that is not even a certificate
     if case["level"] == "response":
         signed = xk.sign_element(xml, xk.SAMLP, "Response", rid, fed.key(j)[0], "rsa-sha256", cert_body)
     else:
@@ -175,10 +177,12 @@ def run_case(case, ctx):
     viol = []
     outcome = "accept" if accepted else "reject:" + (type(exc).__name__ if exc is not None else "None")
     what = "issuer %s (signing-capable metadata keys %s), signed with k%02d, embedded %s, level %s, only_use_keys_in_metadata=%s: %s" % (
-        signer_issuer, ["k%02d" % k for k in sc], j, "k%02d" % emb if emb is not None else "none", case["level"], case["opt"] if case["opt"] == "default" else bool(case["opt"]), outcome)
+        signer_issuer, ["k%02d" % k for k in sc], j, "k%02d" % emb if emb is not None else ("RSAKeyValue of the signing key" if case["embed"] == "keyvalue" else "none"), case["level"], case["opt"] if case["opt"] == "default" else bool(case["opt"]), outcome)
     if accepted and not (may_accept or fallback_ok):
         key = "C03/accepted-under-key-not-held-for-issuer"
-        if emb == j and sc:
+        if case["embed"] == "keyvalue":
+            key = "C03/accepted-under-key-from-the-document"
+        elif emb == j and sc:
             key = "C03/embedded-certificate-trusted-although-metadata-has-signing-key"
         elif emb == j and opt_on:
             key = "C03/embedded-certificate-trusted-with-only_use_keys_in_metadata"
